@@ -95,6 +95,8 @@ type Case struct {
 	// run (index Runs + k) whose prefix up to that checkpoint is the original run's prefix.
 	Again bool   `json:"again,omitempty"`
 	Yield uint64 `json:"yield"`
+	// set by unroll: (graph, round of the enclosing loop) -> index of the copy of that graph
+	clones map[[2]int]int
 }
 
 // ---------------------------------------------------------------- values and state
@@ -229,6 +231,7 @@ type rec struct {
 	mods    map[int][]int // run -> graphs the modifier was applied to
 	rounds  map[[3]int]int // (run, node, what) -> how often it has been executed in that run
 	replays []replayInfo
+	unrolled *Case
 }
 
 // replayInfo describes a second continuation (Case.Again) of run From from its last checkpoint.
@@ -350,10 +353,47 @@ func (h *rec) cs(ctx context.Context, node, kc int, x []KV, s *St) []KV {
 // unroll returns the case with every loop unrolled (what the model and the oracle see): the
 // body is repeated Iter times, the copy for round r has ids + r*stride, the entry nodes of
 // round r > 0 are fed by the last node of round r-1, the loop's successors by the last round.
+// A nested graph run by a body node is executed once per round, each time as a new instance
+// (with a freshly generated state if it declares one): the copy of the node for round r > 0
+// runs a copy of the nested graph (ids + r*stride, nested graphs below it copied as well)
+// appended to the forest; clones remembers (graph, round) -> index of the copy.
 func (c *Case) unroll() *Case {
 	u := *c
 	u.Forest = make([]GraphSpec, len(c.Forest))
-	for gi, g := range c.Forest {
+	u.clones = map[[2]int]int{}
+	var clone func(g, r int) int
+	clone = func(g, r int) int {
+		if g < 0 || g >= len(u.Forest) {
+			return g
+		}
+		src := u.Forest[g]
+		ng := src
+		ng.Loop = nil
+		ng.Nodes = make([]NodeSpec, len(src.Nodes))
+		idx := len(u.Forest)
+		u.Forest = append(u.Forest, ng)
+		u.clones[[2]int{g, r}] = idx
+		for i, n := range src.Nodes {
+			m := n
+			m.ID = n.ID + r*stride
+			m.Preds = nil
+			for _, p := range n.Preds {
+				m.Preds = append(m.Preds, p+r*stride)
+			}
+			if r > 0 {
+				m.Fail = 0
+			}
+			if n.Sub >= 0 {
+				m.Sub = clone(n.Sub, r)
+			}
+			ng.Nodes[i] = m
+		}
+		u.Forest[idx] = ng
+		return idx
+	}
+	// nested graphs have larger indices than the graph that uses them: unroll them first
+	for gi := len(c.Forest) - 1; gi >= 0; gi-- {
+		g := c.Forest[gi]
 		ng := g
 		ng.Loop = nil
 		if g.Loop == nil {
@@ -408,6 +448,9 @@ func (c *Case) unroll() *Case {
 					}
 					if r > 0 {
 						m.Fail = 0 // an injected failure ends the run in round 0
+						if b.Sub >= 0 {
+							m.Sub = clone(b.Sub, r)
+						}
 					}
 					nodes = append(nodes, m)
 				}
@@ -417,6 +460,38 @@ func (c *Case) unroll() *Case {
 		u.Forest[gi] = ng
 	}
 	return &u
+}
+
+// effGraph: index (in the unrolled forest) of the instance of graph gi that is current in run
+// run: gi itself, or, if gi is run (directly or indirectly) by a node inside a loop body, its
+// copy for the round the loop is in (= number of times the loop's branch has been evaluated).
+func (h *rec) effGraph(c *Case, run, gi int) int {
+	for g, d := gi, 0; g > 0 && d < 10; d++ {
+		pg := c.parentOf(g)
+		if pg < 0 {
+			break
+		}
+		if lp := c.Forest[pg].Loop; lp != nil {
+			for _, n := range c.Forest[pg].Nodes {
+				if n.Sub != g {
+					continue
+				}
+				for _, b := range lp.Body {
+					if b == n.ID {
+						h.mu.Lock()
+						r := h.rounds[[3]int{run, lp.Last, -2}]
+						h.mu.Unlock()
+						if idx, ok := h.unrolled.clones[[2]int{gi, r}]; ok && r > 0 {
+							return idx
+						}
+						return gi
+					}
+				}
+			}
+		}
+		g = pg
+	}
+	return gi
 }
 
 // ---------------------------------------------------------------- building the eino graphs
@@ -634,19 +709,19 @@ func (h *rec) lambda(n NodeSpec, psTy int) *compose.Lambda {
 	})
 }
 
-func (h *rec) newGraphOpts(gi int, g *GraphSpec) []compose.NewGraphOption {
+func (h *rec) newGraphOpts(c *Case, gi int, g *GraphSpec) []compose.NewGraphOption {
 	if !g.State {
 		return nil
 	}
 	if g.STy == 1 {
 		return []compose.NewGraphOption{compose.WithGenLocalState(func(ctx context.Context) *St2 {
 			h.gen(ctx)
-			return &St2{Total: int64(gi) * 1000, Cnt: map[string]int64{}}
+			return &St2{Total: int64(h.effGraph(c, runOf(ctx), gi)) * 1000, Cnt: map[string]int64{}}
 		})}
 	}
 	return []compose.NewGraphOption{compose.WithGenLocalState(func(ctx context.Context) *St {
 		h.gen(ctx)
-		return &St{Total: int64(gi) * 1000, Cnt: map[string]int64{}}
+		return &St{Total: int64(h.effGraph(c, runOf(ctx), gi)) * 1000, Cnt: map[string]int64{}}
 	})}
 }
 
@@ -687,7 +762,7 @@ func (h *rec) build(c *Case, gi int, depth int) (compose.AnyGraph, error) {
 		}
 	}
 	if g.Mode == "eager" {
-		wf := compose.NewWorkflow[M, M](h.newGraphOpts(gi, g)...)
+		wf := compose.NewWorkflow[M, M](h.newGraphOpts(c, gi, g)...)
 		for _, n := range g.Nodes {
 			var wn *compose.WorkflowNode
 			if n.Sub >= 0 {
@@ -724,7 +799,7 @@ func (h *rec) build(c *Case, gi int, depth int) (compose.AnyGraph, error) {
 		}
 		return wf, nil
 	}
-	gr := compose.NewGraph[M, M](h.newGraphOpts(gi, g)...)
+	gr := compose.NewGraph[M, M](h.newGraphOpts(c, gi, g)...)
 	for _, n := range g.Nodes {
 		if n.Sub >= 0 {
 			sub, err := h.build(c, n.Sub, depth+1)
@@ -879,6 +954,9 @@ func (h *rec) runOpts(c *Case, run, cpRun int) []compose.Option {
 			}
 			s.Total += 100000
 			gi := c.pathGraph(pathOf(path))
+			if gi >= 0 {
+				gi = h.effGraph(c, run, gi)
+			}
 			h.mu.Lock()
 			h.mods[run] = append(h.mods[run], gi)
 			h.mu.Unlock()
@@ -910,6 +988,9 @@ func (h *rec) resumeLoop(c *Case, r compose.Runnable[M, M], ctx context.Context,
 		res := Resume{Run: run, Mods: []int{}}
 		var olds []*St
 		c.infoSnaps(info, 0, &res.Snaps, &olds)
+		for i := range res.Snaps {
+			res.Snaps[i].Graph = h.effGraph(c, run, res.Snaps[i].Graph)
+		}
 		last = &lastInt{gens: h.gensOf(run), rounds: h.roundsOf(run)}
 		res.Seq = atomic.AddInt64(&h.seq, 1)
 		h.mu.Lock()
@@ -973,7 +1054,7 @@ func (c *Case) execute() (o Obs, hang bool) {
 		_ = compose.RegisterSerializableType[St]("c11_state")
 		_ = compose.RegisterSerializableType[St2]("c11_state2")
 	})
-	h := &rec{yseed: c.Yield, mods: map[int][]int{}, rounds: map[[3]int]int{}, gens: map[int]int64{}}
+	h := &rec{yseed: c.Yield, mods: map[int][]int{}, rounds: map[[3]int]int{}, gens: map[int]int64{}, unrolled: c.unroll()}
 	top, err := h.build(c, 0, 0)
 	if err != nil {
 		return Obs{BuildErr: "add"}, false
@@ -1299,7 +1380,7 @@ func (c *Case) coqTerm(o *Obs) string {
 	}
 	return lib.CoqApp("mkCase", c.coqForest(), lib.CoqList(gty), lib.CoqList(nty), lib.CoqBool(failing), coqX([]KV{{0, c.X0}}), lib.CoqN(uint64(len(o.Results))),
 		lib.CoqBool(o.BuildErr != ""), "\n  "+lib.CoqList(logs), "\n  "+lib.CoqList(finals), lib.CoqList(results),
-		lib.CoqN(uint64(o.Gens)))
+		lib.CoqN(uint64(o.Gens)), lib.CoqBool(c.Interrupt != nil && c.Interrupt.Modifier))
 }
 
 func (e engine) Run(ci any) lib.Result {
@@ -1370,6 +1451,13 @@ func (c *Case) tags(o *Obs) []string {
 	for _, g := range c.Forest {
 		if g.Loop != nil {
 			t = append(t, fmt.Sprintf("loop:%d", g.Loop.Iter))
+			for _, n := range g.Nodes {
+				for _, b := range g.Loop.Body {
+					if n.Sub >= 0 && b == n.ID {
+						t = append(t, "loop:nested-graph")
+					}
+				}
+			}
 		}
 	}
 	if len(o.Results) > c.Runs {
@@ -1463,8 +1551,16 @@ func (c *Case) ownerOf(gi int) int {
 
 // oracle evaluates the property on the implementation's outputs alone.
 func (c *Case) oracle(o *Obs) (string, string) {
+	// AddNode / Compile refuses exactly the programs with a state handler on a graph without
+	// state or written for another state type than the graph's
 	if o.BuildErr != "" {
+		if !c.mustRefuse() {
+			return "AddNode / Compile refused a program whose state handlers all match the state their graph declares (" + o.BuildErr + ")", "build-refused"
+		}
 		return "", ""
+	}
+	if c.mustRefuse() {
+		return "AddNode / Compile accepted a state handler on a graph that declares no state of the handler's type", "build-accepted"
 	}
 	for _, r := range o.Results {
 		if r.Class == "panic" {
@@ -1611,6 +1707,26 @@ func (c *Case) oracle(o *Obs) (string, string) {
 			return fmt.Sprintf("state object %d: %d counters for %d sections", f.Obj, len(f.S.Cnt), len(lg)), "lost-update"
 		}
 	}
+	// the caller's modifier is applied exactly once to every state the checkpoint holds, and to
+	// nothing else
+	if c.Interrupt != nil {
+		for _, r := range o.Resumes {
+			var want []int
+			if c.Interrupt.Modifier {
+				for _, sn := range r.Snaps {
+					want = append(want, sn.Graph)
+				}
+				sort.Ints(want)
+			}
+			same := len(want) == len(r.Mods)
+			for i := 0; same && i < len(want); i++ {
+				same = want[i] == r.Mods[i]
+			}
+			if !same {
+				return fmt.Sprintf("run %d: the checkpoint holds the states of graphs %v, the state modifier was applied to %v", r.Run, want, r.Mods), "modifier"
+			}
+		}
+	}
 	// resume: state before interrupt = state after resume (apart from the modifier)
 	for _, r := range o.Resumes {
 		for _, sn := range r.Snaps {
@@ -1704,6 +1820,22 @@ func (c *Case) oracle(o *Obs) (string, string) {
 		}
 	}
 	return "", ""
+}
+
+// mustRefuse: some node has a state handler although its graph declares no state, or a
+// handler written for the other state type.
+func (c *Case) mustRefuse() bool {
+	for _, g := range c.Forest {
+		for _, n := range g.Nodes {
+			if (n.Pre || n.Post) && !g.State {
+				return true
+			}
+			if (n.Pre && tyOr(n.PreTy, g.STy) != g.STy) || (n.Post && tyOr(n.PostTy, g.STy) != g.STy) {
+				return true
+			}
+		}
+	}
+	return false
 }
 
 // mustFail: some user function returns an error, or a lambda calls ProcessState where no
